@@ -191,11 +191,35 @@ def make_tab_trait(pool, vtab, dflt, kind="T", cmp=2, orig=0, porig=0, post="-",
 # ---------------------------------------------------------------------------
 # Handler behaviours (Python twin of Driver/Attr.lean `parseBeh`)
 
+class Failure(RuntimeError):
+    """An application error carrying a code and a detail string (first argument is not a string)."""
+
+    def __init__(self, code, detail=""):
+        super().__init__(code, detail)
+        self.code = code
+
+
+def rich_exception(j):
+    """Exception variant j for behaviour `e<j>`: classes and argument shapes a handler may raise (Exception
+    subclasses only)."""
+    variants = [
+        lambda: RuntimeError(17, "busy"), lambda: RuntimeError(), lambda: NotImplementedError(int),
+        lambda: RecursionError(3), lambda: KeyError(3), lambda: ValueError("plain"),
+        lambda: RuntimeError(("tuple", "payload")), lambda: Failure(17, "device busy"), lambda: Exception(),
+        lambda: RuntimeError("text message"), lambda: RuntimeError(None), lambda: RuntimeError(b"bytes"),
+        lambda: ZeroDivisionError(), lambda: NotImplementedError(), lambda: RecursionError(("deep", 3)),
+    ]
+    return variants[j % len(variants)]()
+
+
+N_RICH = 15
+
+
 def beh_action(spec, n):
-    """spec: o | r | k<n> | x | x<n>; n = number of earlier handler calls."""
+    """spec: o | r | e<j> | k<n> | x | x<n>; n = number of earlier handler calls."""
     if spec == "o":
         return "stay"
-    if spec == "r":
+    if spec == "r" or spec[0] == "e":
         return "raise"
     if spec[0] == "k":
         return "raise" if n == int(spec[1:]) else "stay"
@@ -207,12 +231,21 @@ def beh_action(spec, n):
 
 
 class ExcHandlers:
-    """push/pop of both notification exception-handler stacks (nothing is printed or logged)."""
+    """push/pop of both notification exception-handler stacks (nothing is printed or logged).
+    `default=True`: nothing is pushed — the library's DEFAULT exception handlers (log and carry on) are what
+    runs; the "traits" logger is silenced for the duration."""
 
-    def __init__(self, reraise_legacy=False, reraise_observe=False):
-        self.rl, self.ro = reraise_legacy, reraise_observe
+    def __init__(self, reraise_legacy=False, reraise_observe=False, default=False):
+        self.rl, self.ro, self.default = reraise_legacy, reraise_observe, default
 
     def __enter__(self):
+        if self.default:
+            import logging
+            lg = logging.getLogger("traits")
+            self._saved = (lg.propagate, list(lg.handlers), lg.disabled)
+            lg.handlers = [logging.NullHandler()]
+            lg.propagate = False
+            return self
         from traits.api import push_exception_handler
         from traits.observation.api import push_exception_handler as push_obs
         push_exception_handler(lambda *a: None, reraise_exceptions=self.rl)
@@ -220,6 +253,11 @@ class ExcHandlers:
         return self
 
     def __exit__(self, *a):
+        if self.default:
+            import logging
+            lg = logging.getLogger("traits")
+            lg.propagate, lg.handlers, lg.disabled = self._saved
+            return False
         from traits.api import pop_exception_handler
         from traits.observation.api import pop_exception_handler as pop_obs
         pop_obs()
